@@ -250,6 +250,38 @@ def check(run, ctx):
         else:
             run.ok(U4, r.short, f"reads {sorted(mine) or 'no section'}", nontrivial=bool(mine))
 
+    U7 = run.rule("U7", "a selector `f(language) -> X | None` returns something only for a language it positively recognised (== / in / table lookup); the fall-through path returns None", floor=1,
+                  decides="a file of a language the linter does not support is not pushed through another language's analyzer")
+    n_u7 = 0
+    for f in sorted(repo.funcs.values(), key=lambda x: x.qual):
+        if not f.module.name.startswith("src.linters.") or f.parent is not None:
+            continue
+        params = [a.arg for a in f.node.args.posonlyargs + f.node.args.args + f.node.args.kwonlyargs]
+        ret = ast.unparse(f.node.returns) if f.node.returns is not None else ""
+        if "language" not in params or "None" not in ret or ret.strip() == "None":
+            continue
+        paths = func_paths(f)
+        if paths is None:
+            continue
+        n_u7 += 1
+        bad = None
+        for p_ in paths:
+            t = p_[-1]
+            if t[0] != "return" or t[1].value is None or (isinstance(t[1].value, ast.Constant) and t[1].value.value is None):
+                continue
+            rv = t[1].value
+            lookup = any((isinstance(x, ast.Call) and call_name(x) == "get" and x.args and any(isinstance(y, ast.Name) and y.id == "language" for y in ast.walk(x.args[0])))
+                         or (isinstance(x, ast.Subscript) and any(isinstance(y, ast.Name) and y.id == "language" for y in ast.walk(x.slice))) for x in ast.walk(rv))
+            positive = any(ev[0] == "test" and ev[2] is True and any(isinstance(c_, ast.Compare) and isinstance(c_.ops[0], (ast.Eq, ast.In)) and any(isinstance(y, ast.Name) and y.id == "language" for y in ast.walk(c_.left)) for c_ in ast.walk(ev[1])) for ev in p_[:-1])
+            if not lookup and not positive:
+                bad = rv
+        sym = f.qual.replace("src.", "", 1)
+        if bad is not None:
+            run.finding(U7, sym, f"default-analysis:{norm(bad)[:60]}", f"{f.qual} returns `{norm(bad)[:70]}` on the path where no test recognised the language: files of every other language (rust, java, go, unknown text files) are analysed with it", f.loc)
+        else:
+            run.ok(U7, sym, "non-None only after a positive language test or a table lookup")
+    run.require(n_u7 >= 1, "no `f(language) -> X | None` selector found in src.linters")
+
     U6 = run.rule("U6", "shared helpers that take the caller's violation_builder return only violations built by that builder in that call (or none)", floor=1,
                   decides="a syntax-error notice carries the id of the rule that is running, so each command keeps its own notice and shows nobody else's")
     n_u6 = 0
